@@ -326,8 +326,23 @@ def _q(qkey):
 
 
 def _make_data(kind):
+    """Data objects are long-lived caller objects too: one per kind and process,
+    so two calculators may well be built on the same data object."""
+    owner = os.getpid()
+    if _DCACHE.get("owner") != owner:
+        _DCACHE.clear()
+        _DCACHE["owner"] = owner
+    if kind not in _DCACHE:
+        _DCACHE[kind] = _new_data(kind)
+    return _DCACHE[kind]
+
+
+_DCACHE = {}
+
+
+def _new_data(kind):
     from sasmodels import data as sdata
-    q = np.array(QARRAYS["a17"])
+    q = np.array(QARRAYS["a17"])       # (each data object owns its arrays, as loaded data would)
     if kind == "perfect":
         return sdata.empty_data1D(q)
     if kind == "pinhole":
